@@ -42,7 +42,9 @@ Init == /\ ks = <<>>
 Base == IF w # <<>> /\ w[1] \in {<<Nat2I(1), Nat2I(4)>>, <<Nat2I(1), Ta>>} THEN 1 ELSE 0
 Push(e) == mode = "key" /\ Len(w) < MaxLen + Base /\ w' = Append(w, e) /\ UNCHANGED <<ks, mode>>
 PushKey(k) == mode = "set" /\ Len(ks) < MaxKeys /\ ks' = Append(ks, k) /\ UNCHANGED <<w, mode>>
-Next == (\E e \in Entries : Push(e)) \/ (\E k \in SetElems : PushKey(k))
+Repeat == mode = "key" /\ Len(w) = MaxLen + Base /\ Len(w) >= 2 /\ w[Base + 1][1] # w[Len(w)][1] /\ Len(w) > Base + 1
+          /\ w' = Append(w, w[Base + 1]) /\ UNCHANGED <<ks, mode>>       \* non-adjacent repetition of the first pushed entry
+Next == (\E e \in Entries : Push(e)) \/ (\E k \in SetElems : PushKey(k)) \/ Repeat
 Spec == Init /\ [][Next]_vars
 
 Item == IF mode = "key" THEN Map(w) ELSE Arr(ks)
